@@ -47,6 +47,7 @@ def dateGetter (y m d : Int) : Getter
   | .monthNum => m
   | .dayOfMonth => d
   | .dayOfWeek => isoDayOfWeek y m d
+  | .era => if y > 0 then 1 else 0
   | _ => 0
 
 def offsetGetter (s : Int) : Getter
@@ -99,53 +100,103 @@ def dateBucket0 : Bucket := fun _ => 0
 def TEMPLATE_YEAR : Int := 2000
 def TWO_DIGIT_YEAR_MAX : Int := 30
 
-/-- `__determine_year` for the ISO calendar without an era field (era of the template: CE) -/
-def determineYear (used : Nat) (b : Bucket) : Option Int :=
+/-- `GJEraCalculator._get_era` as an index into `CalendarSystem.iso.eras()` = [BCE, CE] -/
+def isoEra (y : Int) : Int := if y > 0 then 1 else 0
+
+/-- `__determine_year` for the ISO calendar; `ty` is the template value's year; the era slot holds the index of
+    the parsed era in `eras()` (0 = BCE, 1 = CE).  For both eras the year of era runs over 1 … 9999. -/
+def determineYear (ty : Int) (used : Nat) (b : Bucket) : Option Int :=
   if hasAny used F.year then
     let y := b .year
     if y > ISO_MAX_YEAR ∨ y < ISO_MIN_YEAR then none
+    else if hasAny used F.era ∧ b .era ≠ isoEra y then none
     else if hasAny used F.yearOfEra then
       let yoe := yearOfEra y
       let yoe := if hasAny used F.yearTwoDigits then csharpMod yoe 100 else yoe
       if yoe ≠ b .yearOfEra then none else some y
     else some y
-  else if ¬ hasAny used F.yearOfEra then some TEMPLATE_YEAR
+  else if ¬ hasAny used F.yearOfEra then
+    if hasAny used F.era ∧ b .era ≠ isoEra ty then none else some ty
   else
+    let era := if hasAny used F.era then b .era else isoEra ty
     let yoe := b .yearOfEra
     let yoe :=
       if hasAny used F.yearTwoDigits then
-        let century := Int.tdiv (yearOfEra TEMPLATE_YEAR) 100
+        let century := Int.tdiv (yearOfEra ty) 100
         let century := if yoe > TWO_DIGIT_YEAR_MAX ∧ century > 1 then century - 1 else century
         yoe + century * 100
       else yoe
-    if yoe < 1 ∨ yoe > 9999 then none else some yoe
+    if yoe < 1 ∨ yoe > 9999 then none else some (if era = 1 then yoe else 1 - yoe)
 
-/-- `__determine_month` -/
-def determineMonth (used : Nat) (b : Bucket) : Option Int :=
+/-- `__determine_month`; `tmo` is the template value's month -/
+def determineMonth (tmo : Int) (used : Nat) (b : Bucket) : Option Int :=
   let p := used &&& (F.monthNum ||| F.monthText)
   let m : Option Int :=
     if p = F.monthNum then some (b .monthNum)
     else if p = F.monthText then some (b .monthText)
     else if p = (F.monthNum ||| F.monthText) then (if b .monthNum ≠ b .monthText then none else some (b .monthNum))
-    else some 1
+    else some tmo
   match m with
   | none => none
   | some m => if m > 12 then none else some m
 
-/-- `_LocalDateParseBucket._calculate_value` for the ISO calendar; era and calendar fields are outside the subset -/
-def dateValue (used : Nat) (b : Bucket) : Option (Int × Int × Int) :=
+/-- `_LocalDateParseBucket._calculate_value` for the ISO calendar with template value `ty-tmo-td`; the calendar
+    field is outside the subset (a parsed calendar other than ISO is `!dom` at the step) -/
+def dateValueT (ty tmo td : Int) (used : Nat) (b : Bucket) : Option (Int × Int × Int) :=
   if used = (F.year ||| F.monthNum ||| F.dayOfMonth) then isoDateValue (b .year) (b .monthNum) (b .dayOfMonth)
   else
-    match determineYear used b with
+    match determineYear ty used b with
     | none => none
     | some y =>
-      match determineMonth used b with
+      match determineMonth tmo used b with
       | none => none
       | some m =>
-        let d := if hasAny used F.dayOfMonth then b .dayOfMonth else 1
+        let d := if hasAny used F.dayOfMonth then b .dayOfMonth else td
         if d > daysInMonth y m then none
         else if hasAny used F.dayOfWeek ∧ b .dayOfWeek ≠ isoDayOfWeek y m d then none
         else some (y, m, d)
+
+/-- LocalDate patterns of the default template 2000-01-01 -/
+def dateValue (used : Nat) (b : Bucket) : Option (Int × Int × Int) := dateValueT TEMPLATE_YEAR 1 1 used b
+
+/-! ### LocalDateTime -/
+
+def F.allTime : Nat := F.hours12 ||| F.hours24 ||| F.minutes ||| F.seconds ||| F.fraction ||| F.amPm ||| F.embeddedTime
+def F.allDate : Nat := F.year ||| F.yearTwoDigits ||| F.yearOfEra ||| F.monthNum ||| F.monthText ||| F.dayOfMonth |||
+  F.dayOfWeek ||| F.era ||| F.calendar ||| F.embeddedDate
+
+/-- accessors of a LocalDateTime (ISO calendar): date fields `y m d`, nanosecond of day `nod` -/
+def dtGetter (y m d nod : Int) : Getter
+  | .hours24 => ltHour nod
+  | .hours12 => ltClockHour nod
+  | .minutes => ltMinute nod
+  | .seconds => ltSecond nod
+  | .fraction => ltNano nod
+  | .amPm => 0
+  | .sign => 0
+  | s => dateGetter y m d s
+
+/-- `_LocalDateTimeParseBucket._ctor`: a date bucket (zeros) and a time bucket of the template time -/
+def dtBucket0 (tm : Tmpl) : Bucket := timeBucket0 tm.nod
+
+/-- `_LocalDateTimeParseBucket._combine_buckets` (repaired: the `OverflowError` of the 24:00 roll-over on the last
+    day of the calendar is a failure result) -/
+def dtValue (tm : Tmpl) (used : Nat) (b : Bucket) : R (Option (Int × Int × Int × Int)) :=
+  let hour24 := decide (b .hours24 = 24)
+  let b' := if hour24 then b.set .hours24 0 else b
+  match dateValueT tm.y tm.m tm.d (used &&& F.allDate) b' with
+  | none => .ok none
+  | some (y, m, d) =>
+    match timeValue tm.nod (used &&& F.allTime) b' with
+    | none => .ok none
+    | some t =>
+      if hour24 then
+        if t ≠ 0 then .ok none
+        else match plusOneDay y m d with
+          | .error .overflowError => .ok none
+          | .error e => .error e
+          | .ok (y', m', d') => .ok (some (y', m', d', t))
+      else .ok (some (y, m, d, t))
 
 /-! ### pattern objects -/
 
@@ -155,6 +206,7 @@ def getterOf (ty : PType) (v : List Int) : Option Getter :=
   | .time, [nod] => some (timeGetter nod)
   | .date, [y, m, d] => some (dateGetter y m d)
   | .offset, [s] => some (offsetGetter s)
+  | .datetime _, [y, m, d, nod] => some (dtGetter y m d nod)
   | _, _ => none
 
 def fmtCompiled (c : Compiled) (get : Getter) (buf : Text) : R Text := formatSteps c.cu c.used get c.steps buf
@@ -165,6 +217,7 @@ def bucket0 (ty : PType) : Bucket :=
   | .time => timeBucket0 0
   | .date => dateBucket0
   | .offset => offsetBucket0
+  | .datetime tm => dtBucket0 tm
 
 /-- `bucket.calculate_value(used_fields, text)` in canonical fields -/
 def bucketValue (ty : PType) (used : Nat) (b : Bucket) : R (Option (List Int)) :=
@@ -172,6 +225,7 @@ def bucketValue (ty : PType) (used : Nat) (b : Bucket) : R (Option (List Int)) :
   | .time => .ok ((timeValue 0 used b).map (fun n => [n]))
   | .date => .ok ((dateValue used b).map (fun v => [v.1, v.2.1, v.2.2]))
   | .offset => mapR (fun o => o.map (fun s => [s])) (offsetBucketValue b)
+  | .datetime tm => mapR (fun o => o.map (fun v => [v.1, v.2.1, v.2.2.1, v.2.2.2])) (dtValue tm used b)
 
 /-- `__SteppedPattern.parse`: empty text, parse actions, `calculate_value`, end of text (by position) -/
 def parseCompiled (ty : PType) (c : Compiled) (l : Text) : R (Option (List Int)) :=
